@@ -299,6 +299,19 @@ def run(chk, repo):
         Vv = unparse(st.value)
         if fx is not None and fx.known(f"{K} in self.gene_id_version_mapper and '_PAR_Y' in {Vv}") is not False:
             okj = False
+    # the other direction: an id is skipped (the iteration ends without storing it) only when it IS a _PAR_Y copy - a mapped _PAR_Y copy is
+    # replaced when the primary (chrX) gene arrives later, so the result does not depend on the order of the two copies in the annotation
+    skips = []
+    for l in loops_:
+        skips += [(st, fx) for st, fx in _sem15.facts_in_iteration(ncm, l, lambda st: isinstance(st, ast.Continue))]
+    oks = True
+    for st, fx in skips:
+        vnames = {unparse(s_[0].value) for s_ in stores}
+        if fx is None or not any(fx.known(f"'_PAR_Y' in {v_}") is True for v_ in vnames):
+            oks = False
+    chk.ob('C15.j', 'an id is skipped only when it is itself a _PAR_Y copy (a mapped _PAR_Y copy is replaced by the primary gene arriving later)', cm.where, oks,
+           "an incoming primary (non-_PAR_Y) id can be skipped while the mapping still holds the _PAR_Y copy: the result depends on which copy the annotation lists first "
+           "(FusionCatcher fusions of PAR genes are emitted on the N-masked chrY copy)", key=cm.qual + '::par-y-replaced', fn=cm.qual)
     chk.ob('C15.j', "mapper[unversioned] is (re)assigned only when it is new or the incoming id is not a _PAR_Y copy", cm.where, okj,
            "a _PAR_Y copy can overwrite the mapping of its chrX gene: FusionCatcher fusions of PAR genes are emitted on the N-masked chrY copy (no junction peptides)",
            key=cm.qual + '::par-y-first-wins', fn=cm.qual)
